@@ -41,7 +41,7 @@ type Case struct {
 
 func setup() {
 	c := ev.C()
-	c.Rule = "conformant half: the whole compliance.TestSuite run over real gRPC (bufconn) on ONE long-lived reference server (a second, forward-reference-disabled server for the tests that require it) in a rapid-drawn permutation, with the starting election id drawn from {1,2,255,2^31,2^32+7,2^53,2^62} and a drawn VRF name; package globals are reset at the top of every pass; every test must pass on a fatal/error-capturing testing.TB (skips are recorded). Faulty half: a catalogue of single-requirement faulty servers (the reference server behind a request/response-rewriting proxy, or started with the opposite option); each (fault, designated test) pair runs on a fresh faulty server and must FAIL there, and the same test must PASS on a fresh unwrapped server in the same run. Designation follows declared intent only (the registry's Requires* flags and test names). Non-trivial = a pass whose order differs from the file order with a non-default configuration, or a (fault, test) pair; distinct by FNV-64 of the case JSON."
+	c.Rule = "conformant half: the whole compliance.TestSuite run over real gRPC (bufconn) on ONE long-lived reference server (a second, forward-reference-disabled server for the tests that require it) in a rapid-drawn permutation, with the starting election id drawn from {1,2,255,2^31,2^32+7,2^53,2^62} and a drawn VRF name; package globals are reset at the top of every pass; every test must pass on a fatal/error-capturing testing.TB (skips are recorded). Faulty half: a catalogue of single-requirement faulty servers (the reference server behind a request/response-rewriting proxy, or started with the opposite option); each (fault, designated test) pair runs on a fresh faulty server and must FAIL there, and the same test must PASS on a fresh unwrapped server in the same run. Designation follows declared intent only (the registry's Requires* flags and test names). Non-trivial = a pass whose order differs from the file order with a non-default configuration, or a (fault, test) pair; distinct by FNV-64 of the case JSON. Later additions: acknowledgement-status rewriting faults (deprecated OK, UNSET); a second conformant server whose Get reports the optional entry status fields truthfully (one conformant pass in three)."
 	c.Assumptions = []string{
 		"client.BusyLoopDelay is 1ms (exported tunable)",
 		"the reference server's default network instance is always DEFAULT, so only the VRF name varies",
